@@ -15,6 +15,7 @@ mod detect;
 mod slice;
 mod loadseq;
 mod serde_rt;
+mod ghws;
 
 fn dispatch(cmd: &str, args: &[&str]) -> String {
     match cmd {
@@ -30,10 +31,13 @@ fn dispatch(cmd: &str, args: &[&str]) -> String {
         "loadseqf" => loadseq::run_file(args),
         "loadsrc" => loadseq::run_source(args),
         "nsig" => loadseq::run_nsig(args),
+        "wobs" => loadseq::run_wobs(args),
+        "ghws" => ghws::run(args),
         "serde" => serde_rt::run_path(args),
         "serdev" => serde_rt::run_vcd(args),
         "serdej" => serde_rt::run_json(args),
         "ghwslices" => slice::run_ghw(args),
+        "ghwaliases" => slice::run_aliases(args),
         "detectc" => detect::run_cursor(args),
         "vcd" => vcd::run_vcd(args),
         "file" => vcd::run_file(args),
